@@ -94,7 +94,9 @@ StaticSel == { EmptyFn, [sel |-> Sel(Nil)] }
 RSchemasDep == UNION { { [Blk(lc, Body([p_st |-> PM(<<"m-st">>, "static probe")] @@ ss, [nb |-> NB], NoExt), ds, 0, 0) EXCEPT !.depr = FALSE]
                           @@ [mods |-> <<"m-r1", "m-r2">>, desc |-> "block r"] : ds \in DepSetsFor(KeyX(lc)), ss \in StaticSel } : lc \in LabelCfgs }
 
-RSchemas == IF Mode = "dep" THEN RSchemasDep ELSE
+\* zero levels: no dependent body, and not even a static one
+RBodyless == [Blk(<<>>, Nil, <<>>, 0, 0) EXCEPT !.depr = FALSE] @@ [mods |-> <<"m-r1">>, desc |-> "block without body"]
+RSchemas == IF Mode = "dep" THEN RSchemasDep \cup {RBodyless} ELSE
             { Blk(<<[dep |-> TRUE, comp |-> TRUE]>>, Body(sa, sb, e), ds, 0, 0) : sa \in SAttrs, sb \in SBlocks, e \in Exts, ds \in DepSets }
 
 Root(r) == Body([top |-> A(FALSE, TRUE, FALSE, FALSE)], [r |-> r], NoExt)
@@ -145,7 +147,7 @@ ImplIsSpec == CandOK(E.schema, doc[1].body, Pfx, CandM(E.schema, doc[1].body, Pf
 \* accepting a candidate never creates an unexpected / surplus diagnostic
 AcceptSafeInv == AcceptSafe(E.schema, doc[1].body, Pfx, E.unknown)
 \* inside a block whose dependent body could not be resolved nothing is unexpected
-UnknownQuiet == E.unknown => \A d \in Diags(schema, doc, <<>>, FALSE) : d[1] \in {"unexpectedAttr", "unexpectedBlock"} => Len(d[2]) <= 1
+UnknownQuiet == RS.body # Nil /\ E.unknown => \A d \in Diags(schema, doc, <<>>, FALSE) : d[1] \in {"unexpectedAttr", "unexpectedBlock"} => Len(d[2]) <= 1
 \* candidates never contain what is already present or not declarable
 NoDupOffer == \A c \in CandP(E.schema, doc[1].body, Pfx) : ~HasAttr(doc[1].body, c) \/ Has(E.schema.blocks, c)
 
@@ -154,6 +156,7 @@ BuggyIsSpec == CandOK(E.schema, doc[1].body, Pfx, CandBuggy(E.schema, doc[1].bod
 
 \* C16 on the model: the schema the merge produces knows exactly static + selected dependent attributes
 DepAgree == LET lk == Lookup(RS, doc[1]) IN
+            RS.body # Nil =>
             DOMAIN E.schema.attrs = DOMAIN RS.body.attrs \cup (IF lk.res \in {"Ok", "Partial"} THEN DOMAIN lk.body.attrs ELSE {})
 
 Emit == (EmitEvery = 1 \/ RandomElement(1..EmitEvery) = 1) =>
